@@ -66,6 +66,7 @@ func banProjects(c *fw.Ctx, n int) []*gen.Project {
 		"JSIGHT 0.3\nMACRO @outer\n(\n  GET /o\n    PASTE @inner\n)\nMACRO @inner\n(\n  200 any\n)\nPASTE @outer\n",
 		"JSIGHT 0.3\nURL /x\n  GET\n    Description\n      words\n    200 regex\n      /a+/\n",
 		"JSIGHT 0.3\nTYPE @a\n  {\"k\": @b}\nTYPE @b\n  [1]\nSERVER @one\n  BaseUrl \"http://one\"\n",
+		"JSIGHT 0.3\nGET /a /** first **/\n  200 any\nDELETE /a /** second\n   line **/\n  200 any\nPUT /b /* third */\n  200 any /****/\nPATCH /b // x */ y\n  200 any /***/\nPOST /b /**/\n  200 any\nTYPE @t any /* a * b ** c *** d */\n",
 	}
 	var out []*gen.Project
 	for i, h := range hand {
@@ -98,11 +99,11 @@ func banProjects(c *fw.Ctx, n int) []*gen.Project {
 func C19(c *fw.Ctx) {
 	c.Level = "fault_enumeration"
 	nProj := c.Pick(30, 150)
-	c.Rule(fmt.Sprintf("every subset of size 1 and 2 of the 31 directive kinds (496 configurations) x %d projects (6 hand-made ones that together use all "+
+	c.Rule(fmt.Sprintf("every subset of size 1 and 2 of the 31 directive kinds (496 configurations) x %d projects (7 hand-made ones that together use all "+
 		"31 kinds directly, inside INCLUDEd files, inside pasted and unused MACRO bodies; the rest drawn from the corpus, preferring includes and "+
 		"macros), each built through kit.NewJapi(path, option) and through core.NewJApiCore(file, option).BuildCatalog(); which kinds a project "+
-		"contains is taken from the scan-phase directive tree of the build without the option; plus 25 documents in which the banned " +
-		"directive has a fault of its own (missing file, bad parameter, missing body, duplicate ...) - the ban must win; plus sequences of builds that reuse Option VALUES " +
+		"contains is taken from the scan-phase directive tree of the build without the option; plus 25 documents in which the banned "+
+		"directive has a fault of its own (missing file, bad parameter, missing body, duplicate ...) - the ban must win; plus sequences of builds that reuse Option VALUES "+
 		"([A], [A,B], [A], [], [B], [B,A], [B] in one process): equal options must give equal results whatever other builds got; distinct = distinct (project, configuration, API); "+
 		"non-trivial = every case", nProj))
 	c.Assume("presence of a kind is read from the phase-snapshot hook of the unrestricted build (INCLUDE: from the file-access hook)")
@@ -126,6 +127,31 @@ func C19(c *fw.Ctx) {
 			collectKinds(res.Scan, j.Files, res.Dir, b.kinds)
 		} else {
 			b.kinds = nil // the scan phase failed: presence unknown
+		}
+		// hand-made projects: the kinds that are written are also known without the implementation (first word of a line that is a
+		// keyword; these texts have no body or text line that begins with one). A kind that is written but not in the scan tree
+		// was swallowed by something; it still counts as present.
+		if strings.HasPrefix(b.name, "hand-") && b.kinds != nil {
+			kw := keywordList()
+			for fname, content := range j.Files {
+				for ln, line := range strings.Split(string(content), "\n") {
+					f := strings.Fields(line)
+					if len(f) == 0 || !kw[f[0]] {
+						continue
+					}
+					kind := f[0]
+					if len(kind) == 3 && kind[0] >= '1' && kind[0] <= '5' {
+						kind = "HTTP-response-code"
+					}
+					if kind == "INCLUDE" {
+						continue
+					}
+					if len(b.kinds[kind]) == 0 {
+						c.Violate("ban:kind-written-but-not-scanned:"+kind, fmt.Sprintf("%s: %s:%d begins with the keyword %s but the scan tree of the build holds no %s directive", b.name, fname, ln+1, f[0], kind), replayOf(j, res))
+						b.kinds[kind] = append(b.kinds[kind], [2]string{fname, fmt.Sprint(ln + 1)})
+					}
+				}
+			}
 		}
 		if b.kinds != nil {
 			for _, e := range res.Files {
